@@ -117,6 +117,84 @@ def builders(g):
     return B
 
 
+def case_rounding_Q(H, f32=False):
+    """standard-model rounding analysis of the translation-rotation coupling block Q of the se3 left Jacobian, observed as the gradient of
+    the x-translation of se3([1,2,3, 0.6 theta, 0, 0.8 theta]).Exp() with respect to its input (row 0 of [Jl(phi) | Q(tau, phi)]): for
+    every theta in (0, 1/2] and all rounding errors the gradient stays within 100 sqrt(eps) of its exact-arithmetic value"""
+    from symx.engine import rat
+    from symx.terms import subst
+    name = 'C04/rounding/se3_Exp.backward(Q)%s' % ('/float32' if f32 else '')
+    dt = torch.float32 if f32 else DT
+    eps = torch.finfo(dt).eps
+    u = rat(eps) / 2
+    tolf = 100 * eps ** 0.5
+
+    def grad_real(th):
+        x = pp.se3(torch.tensor([1., 2., 3., 0.6 * th, 0., 0.8 * th], dtype=dt)).requires_grad_(True)
+        x.Exp().tensor()[0].backward()
+        return x.grad.double()
+
+    def prog(m):
+        m.ctx.round_u = u
+        m.ctx.split_bool_casts = True
+        xv = torch.tensor([1., 2., 3., 0.6e-3, 0., 0.8e-3], dtype=dt)
+        th = z3.Real('theta')
+        m.ctx.env['theta'] = 1e-3
+        m.set_terms(xv, [None, None, None, th * rat(0.6), None, th * rat(0.8)])
+        m.ctx.assume += [th > 0, th <= z3.RealVal('1/2')]
+        x = pp.se3(xv).requires_grad_(True)
+        out = x.Exp().tensor()[0]
+        g, = torch.autograd.grad(out, [x])
+        return m.full_terms(g.tensor() if isinstance(g, pp.LieTensor) else g), th
+
+    def replay(model):
+        import mpmath
+        mpmath.mp.dps = 60
+        th0 = abs(float(model.get('theta', 1e-12))) or 1e-12
+        cand = [th0 * f for f in (1.0, 0.3, 3.0, 0.1, 10.0)] + [10.0 ** (-k) for k in range(2, 16)]
+        worst, wt = 0.0, None
+        for th in cand:
+            if not (eps < th <= 0.5):
+                continue
+            ph = [mpmath.mpf(0.6) * th, mpmath.mpf(0), mpmath.mpf(0.8) * th]
+            # exact row 0 of [Jl | Q] from the power series of the 6x6 left Jacobian  J = sum_n ad^n / (n+1)!
+            ad = mpmath.zeros(6, 6)
+            sk = lambda v: mpmath.matrix([[0, -v[2], v[1]], [v[2], 0, -v[0]], [-v[1], v[0], 0]])
+            P_, T_ = sk(ph), sk([mpmath.mpf(1), mpmath.mpf(2), mpmath.mpf(3)])
+            for i in range(3):
+                for j in range(3):
+                    ad[i, j] = P_[i, j]; ad[i + 3, j + 3] = P_[i, j]; ad[i, j + 3] = T_[i, j]
+            J, term = mpmath.eye(6), mpmath.eye(6)
+            for n in range(1, 30):
+                term = term * ad / (n + 1)
+                J = J + term
+            got = grad_real(float(th))
+            e = max(abs(float(J[0, j]) - got[j].item()) for j in range(6))
+            if e > worst:
+                worst, wt = e, th
+        return worst > tolf * 4.0, 'd t_x / d xi of se3([1,2,3, 0.6t, 0, 0.8t]).Exp() deviates from the exact left Jacobian by %.3g at t=%.3g (allowed %.3g)' % (worst, wt or 0, tolf * 4.0)
+
+    for ctx, (g, th) in run_paths(H, name, prog, max_paths=16, f32=f32):
+        pn = H.paths
+        hyp = H.hyps_of(ctx) + [z3.And(d <= u, d >= -u) for d in ctx.deltas]
+        zero = [(d, z3.RealVal(0)) for d in ctx.deltas]
+        tol = rat(float(tolf))
+        ab = lambda e: z3.If(e >= 0, e, -e)
+        for j in range(3, 6):
+            ex = subst(g[j], zero)
+            H.prove('%s/path%d/rounding-error(grad[%d])<=100sqrt(eps)(1+|grad|)' % (name, pn, j), hyp, ab(g[j] - ex) <= tol * (1 + ab(ex)), replay=replay,
+                    key='C04/rounding/calcQ', timeout=(30 if H.quick else 120))
+            # the same bound at fixed angles (all rounding errors at that angle): with theta a constant the query is polynomial in the
+            # rounding variables only, which is where a cancellation shows up as a satisfiable instance within the cap
+            for v in ('1/100000000000000', '1/1000000000000', '1/10000000000', '1/100000000', '1/1000000', '1/10000', '1/100'):
+                if ctx.feasible([th == z3.RealVal(v)]) == 'unsat':
+                    continue
+                H.prove('%s/path%d/theta=%s/rounding-error(grad[%d])' % (name, pn, v, j), hyp + [th == z3.RealVal(v)], ab(g[j] - ex) <= tol * (1 + ab(ex)),
+                        replay=replay, key='C04/rounding/calcQ', timeout=(20 if H.quick else 60))
+        H.reach('%s/path%d/reach' % (name, pn), hyp)
+        H.notes.append('%s path %d: %d rounding variables' % (name, pn, len(ctx.deltas)))
+
+
 POLY = ('Act3', 'Act4', 'Mul', 'Inv', 'Adj', 'AdjT', 'matrix', '(X@Y.Inv()).Act(p)', 'X.Inv().Act(Y.Act(p))')
 
 
@@ -152,4 +230,12 @@ def run(H):
             except Exception as e:
                 import traceback; traceback.print_exc()
                 H.engine_error(nm, e)
+    for f32 in ((False,) if H.quick else (False, True)):
+        if only and only not in 'rounding':
+            continue
+        try:
+            case_rounding_Q(H, f32)
+        except Exception as e:
+            import traceback; traceback.print_exc()
+            H.engine_error('rounding-Q', e)
     return H.finish(explanation=EXPLAIN)
